@@ -137,11 +137,55 @@ def nat_shard(args):
                 nacc += 1
         part.stat("bodies")
     part.stat("reference_accepts", nacc)
+    if filler == "distinct":
+        partner_sequences(part, country, tier)
     part.stat("national_country_x_filler")
     part.sample({"country": country, "check_positions": cps,
                  "valid_example": bases.iban_text(country, nat.with_check(country, bases.bban(c, "distinct")) or "")
                  if country not in ("CZ", "SK") else None})
     return part.done()
+
+
+def partner_sequences(part, country, tier):
+    """The same BBAN text validated nationally under a partner country (same BBAN length, with and
+    without an algorithm of its own) immediately before it is judged for ``country``: a verdict
+    remembered per BBAN text would be replayed for the wrong country."""
+    c = reg.countries()[country]
+    cl = bases.classes_of(c)
+    cps = check_positions(country)
+    alph = [reg.CLASS_CHARS[cl[p]] for p in cps]
+    all_partners = bases.partners(country)
+    with_algo = [p for p in all_partners if p in nat.COUNTRIES]
+    without = [p for p in all_partners if p not in nat.COUNTRIES and p != "DE"]
+    chosen = without[:2] + with_algo[:2]
+    if not chosen:
+        part.stat("countries_without_partner")
+        return
+    body0 = bases.bban(c, "digits")
+    bodies = [body0] + [body0[:p] + d + body0[p + 1:] for p in range(0, len(body0), 3) for d in "05"
+                        if p not in cps and d != body0[p] and d in reg.CLASS_CHARS[cl[p]]]
+    for pc in chosen:
+        pcountry = reg.countries()[pc]
+        for body in bodies:
+            for vals in itertools.product(*alph):
+                chars = list(body)
+                for p, v in zip(cps, vals):
+                    chars[p] = v
+                b = "".join(chars)
+                if not pcountry.matches(b):
+                    continue
+                ptext = bases.iban_text(pc, b)
+                lib.iban_parse(ptext, True)
+                k, o = lib.outcome(lib.IBAN, ptext)
+                if k == "ok":
+                    lib.outcome(o.bban.validate_national_checksum)
+                part.count(("seq", pc, b))
+                part["evals"] += 5
+                status, sig, exp, obs = judge(country, b)
+                if status == "bad":
+                    part.violation(sig + "-after-same-BBAN-text-in-partner-country",
+                                   {"kind": "c06seq", "country": country, "bban": b, "partner": pc}, exp, obs)
+        part.stat("partner_sequences")
 
 
 def other_shard(args):
@@ -180,6 +224,14 @@ def shard(args):
 
 
 def replay(case: dict) -> dict:
+    if case["kind"] == "c06seq":
+        ptext = bases.iban_text(case["partner"], case["bban"])
+        lib.iban_parse(ptext, True)
+        k, o = lib.outcome(lib.IBAN, ptext)
+        if k == "ok":
+            lib.outcome(o.bban.validate_national_checksum)
+        status, sig, exp, obs = judge(case["country"], case["bban"])
+        return {"ok": status != "bad", "signature": sig, "expected": exp, "observed": obs}
     if case["kind"] == "c06":
         status, sig, exp, obs = judge(case["country"], case["bban"])
         return {"ok": status != "bad", "signature": sig, "expected": exp, "observed": obs}
